@@ -70,9 +70,12 @@ def proof_stage(pid, thorough=False):
         res['problems'].append(f'parameter extraction failed: {e}')
     # source -> Lean translators (regenerated on every run; the source-tie theorems are proved about their output)
     try:
-        import urgency2lean, sql2lean
+        import urgency2lean, sql2lean, server2lean, clap2lean
         tr = {'urgency': urgency2lean.extract_and_write(os.path.join(LEAN, 'Tcs', 'Generated', 'UrgencySrc.lean')),
-              'sql': sql2lean.extract_and_write(os.path.join(LEAN, 'Tcs', 'Generated', 'SqlSrc.lean'))}
+              'sql': sql2lean.extract_and_write(os.path.join(LEAN, 'Tcs', 'Generated', 'SqlSrc.lean')),
+              'server': server2lean.extract_and_write(os.path.join(LEAN, 'Tcs', 'Generated', 'ServerSrc.lean')),
+              'cli': clap2lean.extract_and_write(os.path.join(LEAN, 'Tcs', 'Generated', 'CliSrc.lean'))}
+        res['translated_source'] = tr
         if res['params'] is not None:
             res['params']['translated_source'] = tr
     except Exception as e:
@@ -123,8 +126,22 @@ def proof_stage(pid, thorough=False):
         res['discharged'] = min(res['discharged'], res['obligations'] - 1) if any('forbidden' in p or 'sorry' in p for p in res['problems']) else res['discharged']
     # source ties: each is its own module (built separately, so that a statement that no longer matches breaks exactly
     # the obligations that are about it)
-    for tmod, tthms in spec.get('ties', []):
+    for tie in spec.get('ties', []):
+        tmod, tthms = tie[0], tie[1]
+        srckeys = tie[2] if len(tie) > 2 else []
         res['obligations'] += len(tthms)
+        # a tie is about the CURRENT source only if the translator could read it
+        bad = []
+        for key in srckeys:
+            grp, name = key.split(':')
+            st = ((res.get('translated_source') or {}).get(grp, {}).get('source', {}) or {}).get(name, 'missing')
+            if st != 'translated':
+                bad.append(f'{key}: {st}')
+        if bad:
+            res['problems'].append(f'source tie {tmod}: the current source is outside the translator\'s subset, so the theorem is not about it (' + ' | '.join(b[:200] for b in bad) + ')')
+            for t in tthms:
+                res['theorems'].append({'name': t, 'axioms': None, 'ok': False, 'tie': tmod})
+            continue
         rc, out = sh(['lake', 'build', tmod], cwd=LEAN, timeout=1800)
         if rc != 0:
             errs = [l for l in out.splitlines() if l.startswith('error:')][:3]
